@@ -1073,3 +1073,35 @@ package tcell
 //@   ensures [reapplied] isNil(result) ==> calls(enableMouse) == 1 && calls(enablePasting) == 1 && calls(enableFocusReporting) == (t.focusEnabled ? 1 : 0)
 //@   ensures [not-started] !isNil(result) ==> calls(enableMouse) == 0 && calls(enablePasting) == 0 && calls(enableFocusReporting) == 0
 //@   modifies t.running, t.stopQ, t.cells.w, t.cells.h, t.cells.cells, t.buf, t.wg, t.Mutex
+
+// ---------------------------------------------------------------------------
+// C06: the screen is inert after Fini - Show, Sync and SetStyle test t.fini, which the shutdown has to set.
+// ---------------------------------------------------------------------------
+
+//@ func (*tScreen).finalize
+//@   trusted
+//@   modifies t.running, t.stopQ, t.buf, t.Mutex, t.wg, t.cursorStyleSet, t.cursorColorSet, t.colors, t.curstyle
+
+//@ func (*tScreen).finish
+//@   arith math
+//@   ensures [finished] t.fini
+//@   ensures [closes-quit] calls("*close:quit") == 1
+//@   ensures [finalized] calls(finalize) == 1
+//@   modifies t.fini, t.running, t.stopQ, t.buf, t.Mutex, t.wg, t.cursorStyleSet, t.cursorColorSet, t.colors, t.curstyle
+
+// Show and Sync on a screen that is finished or not engaged (suspended, or not yet initialised) emit nothing and do
+// not scan the cells: disengage has emptied the cell buffer, and whatever they wrote would not be undone by the next
+// Fini/Suspend, which returns early when the screen is not running (verified for that case only: `opt under`).
+//@ func (*tScreen).Show
+//@   arith math
+//@   opt under t.fini || !t.running
+//@   opt prune on
+//@   ensures [inert] calls(draw) == 0 && calls(resize) == 0
+//@   modifies t.Mutex
+
+//@ func (*tScreen).Sync
+//@   arith math
+//@   opt under t.fini || !t.running
+//@   opt prune on
+//@   ensures [inert] calls(draw) == 0 && calls(resize) == 0 && calls(Invalidate) == 0
+//@   modifies t.cx, t.cy, t.Mutex
